@@ -305,6 +305,47 @@ def focused_checks(res, rng, npr, tier):
                     "KAK on exp(i(aXX+bYY+cZZ)) (I x RX(delta))", c, out, tol=1e-6)
 
 
+def backend_wrappers(res, rng, npr, tier):
+    """QiskitTranspiler (quri_parts.qiskit.circuit.transpile): a CircuitTranspiler that round-trips through Qiskit's
+    transpiler.  Its documentation promises no weaker relation, so the output must have the action of the input.
+    (TketTranspiler raises for every configuration under the installed pytket: nothing to compare.)"""
+    try:
+        from quri_parts.qiskit.circuit.transpile import QiskitTranspiler
+    except Exception as e:  # noqa: BLE001 - third-party package missing
+        res.count(("QiskitTranspiler", "unavailable", type(e).__name__), nontrivial=False, bucket="QiskitTranspiler:unavailable")
+        return
+    vocab = [k for k in VOCAB if k not in ("UM1", "UM2", "Pauli", "PauliRotation", "PauliRotation1", "PauliRotationN")]
+    cfgs = [("default", {}), ("level0", {"optimization_level": 0}), ("level1", {"optimization_level": 1}),
+            ("level2", {"optimization_level": 2}), ("level3", {"optimization_level": 3}),
+            ("basis_rz_sx_x_cx", {"basis_gates": ["RZ", "SqrtX", "X", "CNOT"]})]
+    for label, kw in cfgs:
+        try:
+            tr = QiskitTranspiler(**kw)
+        except Exception as e:  # noqa: BLE001
+            res.fail("ctor:QiskitTranspiler", f"{type(e).__name__}: {e}", {"config": label})
+            continue
+        for rep in range(6 if tier == "quick" else 60):
+            n = rng.randint(2, 4)
+            c = QuantumCircuit(n)
+            for _ in range(rng.randint(1, 8)):
+                c.add_gate(rand_gate(rng, npr, n, vocab if rng.random() < 0.7 else ["SWAP", "CNOT", "H", "T"]))
+            if rep == 0:   # corpus: a permutation the optimising levels elide
+                n, c = 3, QuantumCircuit(3)
+                for g in (gates.H(0), gates.T(0), gates.SWAP(0, 2), gates.CNOT(0, 1), gates.RY(2, 0.3)):
+                    c.add_gate(g)
+            try:
+                out = tr(c)
+            except Exception as e:  # noqa: BLE001 - a rejection is allowed
+                res.count(("QiskitTranspiler", label, "raise", type(e).__name__), nontrivial=False, bucket="QiskitTranspiler:raises")
+                continue
+            res.count(("QiskitTranspiler", label, tuple(map(str, describe(c)))), bucket="QiskitTranspiler")
+            d = O.phase_dist(O.circuit_unitary(out.gates, out.qubit_count), O.circuit_unitary(c.gates, n)) \
+                if out.qubit_count == n else 9.0
+            if d > 1e-6:
+                res.fail("sweep:QiskitTranspiler", f"unitary differs beyond phase: dist {d:.3e}",
+                         {"config": label, "n": n, "circuit": describe(c), "out": describe(out)})
+
+
 def main():
     a = O.std_args().parse_args()
     rng = random.Random(a.seed * 104729 + 1)
@@ -348,6 +389,7 @@ def main():
         res.sample({"config": label, "example_circuit": describe(c)[:3]}, limit=3)
     clifford_approx_check(res, rng, npr, reps * 6)
     focused_checks(res, rng, npr, a.tier)
+    backend_wrappers(res, rng, npr, a.tier)
     res.emit()
 
 
